@@ -2,3 +2,5 @@
 import UF.Props.C04Full
 import UF.Props.C05Full
 import UF.Props.C12Full
+import UF.Props.C10Full
+import UF.Props.C18Full
